@@ -267,7 +267,7 @@ def run(ctx):
     vlib.write_evidence(ctx, info, {
         "evaluations": len(items), "distinct_nontrivial": len(distinct), "rule": RULE, "samples": samples,
         "input_distribution": dict(stats), "outcomes": dict(outcome_hist), "accepted_ratio": round(acc, 3),
-        "verdicts": dict(verdicts), "exhaustive": {"family": "pairs of leaf forms x flags x equal/different address",
+        "verdicts": dict(verdicts), "exhaustive": False, "exhaustive_family": {"family": "pairs of leaf forms x flags x equal/different address",
                                                    "cases": nex, "complete": True},
         "model_variant": "fx=" + ac.fx_flag(), "disagreements": len(bad)})
 
